@@ -61,6 +61,14 @@ func runP7Sign(sc M) {
 	}
 	cert := testCert(key, issuer, serial)
 	other := testCert("k3", "i2", "s2")
+	if sc["after_error"] == true {
+		// an earlier signing attempt over other content failed in the signer: the next signature must not be affected
+		dl := &depLog{faultAt: 1, kind: "error"}
+		guard(func() error {
+			_, err := pkcs7.SignPKCS7(faultySigner{testKey(key), dl}, cert, oidData, prbytes(fmt.Sprint("c05-earlier:", id), 100))
+			return err
+		})
+	}
 	var der []byte
 	var oid asn1.ObjectIdentifier
 	var signedValue []byte // the value octets the messageDigest must cover
